@@ -1,33 +1,10 @@
 import ESV.Comp.CodegenF0a
+import ESV.Comp.CgDefs
 /-
 `codegen_correct`, fragment F0, part b: the fragment, its code, and the path the source semantics builds for it.
 -/
 namespace ESV.Comp
 open ESV ESV.Beh
-
-def nameOK (n : String) : Bool := !isCtx n && !(isJump n || isTest n)
-
-/-- what may stand under a context in F0: a plain operation (not `Return`, see `FrontGuard`), `end`, `hold` -/
-def f0Inner : Stmt → Bool
-  | .op n _ => nameOK n && n != Gen.op_return
-  | .end_ => true
-  | .hold => true
-  | _ => false
-
-/-- F0: plain operations (assignments arrive as operations), operations with an inline context, with-blocks around a
-plain operation / `end` / `hold`, and `return` / `end` / `hold` -/
-def f0Stmt : Stmt → Bool
-  | .op n _ => nameOK n
-  | .inl c _ n _ => isCtx c && nameOK n && n != Gen.op_return
-  | .with_ c _ inner => isCtx c && f0Inner inner
-  | .ret => true
-  | .end_ => true
-  | .hold => true
-  | _ => false
-
-def f0Stmts : Stmts → Bool
-  | .nil => true
-  | .cons s r => f0Stmt s && f0Stmts r
 
 def stmtCode : Stmt → Code
   | .op n ps => [(n, ps)]
